@@ -20,9 +20,11 @@ import (
 	"time"
 
 	"github.com/apache/skywalking-banyandb/api/common"
+	modelv1 "github.com/apache/skywalking-banyandb/api/proto/banyandb/model/v1"
 	"github.com/apache/skywalking-banyandb/banyand/internal/sidx"
 	"github.com/apache/skywalking-banyandb/banyand/protector"
 	"github.com/apache/skywalking-banyandb/pkg/fs"
+	"github.com/apache/skywalking-banyandb/pkg/index"
 	"github.com/apache/skywalking-banyandb/pkg/logger"
 	pbv1 "github.com/apache/skywalking-banyandb/pkg/pb/v1"
 	"github.com/apache/skywalking-banyandb/pkg/run"
@@ -53,14 +55,16 @@ func TestVerifC05Trace(t *testing.T) {
 		go tst.flusherLoop(flushCh, mergeCh, introducerWatcher, flusherWatcher, epoch)
 		sx := tst.mustGetOrCreateSidx(idx)
 
+		var pkMu sync.Mutex
+		partKeys := map[uint64]map[int64]bool{} // part id -> index keys of the spans it holds (recorded before the part can be seen)
 		var stop atomic.Bool
-		var views, changed atomic.Int64
+		var views, changed, indexQueries atomic.Int64
 		var firstBad atomic.Value
 		var wg sync.WaitGroup
 		states := sync.Map{}
 		for g := 0; g < 4; g++ {
 			wg.Add(1)
-			go func() {
+			go func(g int) {
 				defer wg.Done()
 				for !stop.Load() && firstBad.Load() == nil {
 					release := acquireSnapshotPublicationView([]*tsTable{tst})
@@ -68,6 +72,51 @@ func TestVerifC05Trace(t *testing.T) {
 					if snp == nil {
 						release()
 						continue
+					}
+					if g == 0 {
+						// what an ordered query does inside the view: read the index, then rely on the core snapshot.
+						// Every index entry must belong to a visible part and every visible span must be indexed.
+						want := map[int64]bool{}
+						pkMu.Lock()
+						for _, pw := range snp.parts {
+							for k := range partKeys[pw.ID()] {
+								want[k] = true
+							}
+						}
+						pkMu.Unlock()
+						qctx, qcancel := context.WithTimeout(context.Background(), 30*time.Second)
+						rs, qerr := sx.QuerySync(qctx, sidx.QueryRequest{SeriesIDs: []common.SeriesID{1, 2, 3}, Order: &index.OrderBy{Sort: modelv1.Sort_SORT_ASC}})
+						qcancel()
+						got := map[int64]bool{}
+						for _, rr := range rs {
+							if rr != nil {
+								if rr.Error != nil && qerr == nil {
+									qerr = rr.Error
+								}
+								for _, k := range rr.Keys {
+									got[k] = true
+								}
+							}
+						}
+						indexQueries.Add(1)
+						var lost, ghost []int64
+						for k := range want {
+							if !got[k] {
+								lost = append(lost, k)
+							}
+						}
+						for k := range got {
+							if !want[k] {
+								ghost = append(ghost, k)
+							}
+						}
+						switch {
+						case qerr != nil:
+							firstBad.CompareAndSwap(nil, "index query failed inside the view: "+qerr.Error())
+						case len(lost)+len(ghost) > 0:
+							firstBad.CompareAndSwap(nil, fmt.Sprintf("index query inside the view: %d visible spans have no index entry (e.g. %v), %d index entries point at spans that are not visible (e.g. %v)",
+								len(lost), lost[:min(len(lost), 4)], len(ghost), ghost[:min(len(ghost), 4)]))
+						}
 					}
 					// what an ordered query can see of both sides: the file parts of the core snapshot and the file
 					// parts the index snapshot lists (asked for every id ever handed out)
@@ -108,7 +157,7 @@ func TestVerifC05Trace(t *testing.T) {
 					}
 					time.Sleep(20 * time.Microsecond)
 				}
-			}()
+			}(g)
 		}
 		// the actors
 		spanSeq := 0
@@ -141,7 +190,7 @@ func TestVerifC05Trace(t *testing.T) {
 					ts.tags = append(ts.tags, []*tagValue{{tag: "t", valueType: pbv1.ValueTypeStr, value: []byte("v")}})
 					ts.spans = append(ts.spans, []byte(fmt.Sprint("span", spanSeq)))
 					ts.spanIDs = append(ts.spanIDs, fmt.Sprint("s", spanSeq))
-					reqs = append(reqs, sidx.WriteRequest{SeriesID: common.SeriesID(1 + spanSeq%3), Key: int64(spanSeq), Data: []byte(tid)})
+					reqs = append(reqs, sidx.WriteRequest{SeriesID: common.SeriesID(1 + spanSeq%3), Key: int64(spanSeq), Data: []byte(fmt.Sprint(tid, "#", spanSeq))}) // unique payloads: the index de-duplicates equal payloads within a block
 				}
 				minTS, maxTS := int64(0), int64(1<<40)
 				mp, err := sx.ConvertToMemPart(reqs, 0, &minTS, &maxTS)
@@ -149,6 +198,13 @@ func TestVerifC05Trace(t *testing.T) {
 					firstBad.CompareAndSwap(nil, "building the index part failed: "+err.Error())
 					break
 				}
+				keys := map[int64]bool{}
+				for _, rq := range reqs {
+					keys[rq.Key] = true
+				}
+				pkMu.Lock()
+				partKeys[atomic.LoadUint64(&tst.curPartID)+1] = keys // this goroutine is the only one handing out part ids
+				pkMu.Unlock()
 				tst.mustAddTraces(ts, map[string]*sidx.MemPart{idx: mp})
 				writes++
 				opLog = append(opLog, "write -> "+coreSig())
@@ -196,6 +252,15 @@ func TestVerifC05Trace(t *testing.T) {
 				}
 				snp.decRef()
 				if len(selected) >= 2 {
+					union := map[int64]bool{}
+					pkMu.Lock()
+					for _, pw := range selected {
+						for k := range partKeys[pw.ID()] {
+							union[k] = true
+						}
+					}
+					partKeys[atomic.LoadUint64(&tst.curPartID)+1] = union
+					pkMu.Unlock()
 					closeCh := make(chan struct{})
 					_, err := tst.mergePartsThenSendIntroduction(snapshotCreatorMerger, selected, pick, mergeCh, closeCh, mergeTypeFile, mergeLaneFast, nil)
 					close(closeCh)
@@ -224,6 +289,7 @@ func TestVerifC05Trace(t *testing.T) {
 			s.Violation("c05:trace:core-and-index-snapshots-disagree-inside-a-publication-view", map[string]any{"case": c, "what": fb.(string), "writes": writes, "sync_introductions": syncs, "merges": merges, "last_operations": opLog})
 		}
 		s.Count("c05.trace.publication_views_inspected", views.Load())
+		s.Count("c05.trace.index_queries_inside_a_view", indexQueries.Load())
 		s.Count("c05.trace.distinct_snapshot_states_seen", changed.Load())
 		s.Count("c05.trace.sync_introductions", int64(syncs))
 		s.Count("c05.trace.merges", int64(merges))
